@@ -37,7 +37,19 @@ def gen_text(r: apigen.Rng, plain=False, tabs=True, quotes=True):
         if r.maybe(0.5) and i > 0:
             line = " " + line          # protoc keeps one leading space after a line break
         lines.append(line)
-    return "\n".join(lines)
+    text = "\n".join(lines)
+    # leading whitespace of the whole text (runs of spaces, tabs, blank lines), sometimes before a token that is
+    # longer than any width: textwrap drops such whitespace from the first line (fix be75097)
+    x = r.random()
+    if x < 0.12:
+        lead = "".join(r.pick([" ", " ", "  ", "\t", "\n", "    ", "\x0c"]) for _ in range(r.randint(1, 4)))
+        if r.maybe(0.5):
+            text = lead + "x" * r.randint(20, 120) + " " + text
+        else:
+            text = lead + text
+    elif x < 0.15:
+        text = " " * r.randint(1, 120) + ("\n" + text if r.maybe(0.5) else "")
+    return text
 
 
 def words(s):
@@ -186,8 +198,23 @@ def collect_emitted_sources(ctx):
 CORPUS_WRAP = [
     # (text, width, offset, indent) — §9-F5: a tab in a long first line
     ("alpha\tbeta gamma delta epsilon zeta eta theta iota kappa lambda mu nu xi omicron pi rho sigma tau", 40, None, 0),
+    # fix be75097: leading whitespace before a word that does not fit / a blank first line wider than the width
+    ("   " + "x" * 30, 20, None, 0), ("     ", 4, None, 0), ("      \nfoo bar", 4, None, 0), ("  ab " + "x" * 30 + " cd", 20, None, 0),
+    ("\t" + "y" * 50 + " tail words here", 30, 5, 4), ("\n\n  " + "z" * 40, 24, None, 0),
 ]
-CORPUS_RST = ['He said """ and left.', "ends with a backslash \\", 'ends with a quote "', "plain text. " * 12]
+SMALL_ALPHA = "a \n:-1."
+SMALL_CONFIGS = ((4, None, 0), (6, 2, 0), (6, None, 1), (5, 0, 2))
+
+
+def small_texts(maxlen):
+    """EVERY text over a seven-character alphabet up to the given length (words, spaces, line breaks, colons, list markers)"""
+    import itertools
+    for n in range(1, maxlen + 1):
+        for t in itertools.product(SMALL_ALPHA, repeat=n):
+            yield "".join(t)
+CORPUS_RST = ['He said """ and left.', "ends with a backslash \\", 'ends with a quote "', "plain text. " * 12,
+              # a detached comment reaches rst() unstripped: the guards must look at the text AFTER wrapping
+              ' Manages the shelves of a "library"\n', " Joins path segments with a \\\n", 'quote then blanks "   ', '  """\n']
 
 
 def run(ctx):
@@ -199,7 +226,7 @@ def run(ctx):
                 "pre-format source of a really generated library + a blank-line/indentation grammar (valid and arbitrary); "
                 "distinct by input; non-trivial = text with at least two words / source with at least one blank-line run")
     ctx.assume("pandoc is absent: only the plain-text path of rst() (no | * ` _ [ ] in the text) is exercised")
-    ctx.assume("offset < width (stated in the property); first line of the text is not blank")
+    ctx.assume("offset < width (stated in the property)")
     r = ctx.rng("texts")
     ops, metas = [], []
     # ---- corpus first
@@ -209,11 +236,16 @@ def run(ctx):
     for text in CORPUS_RST:
         ops.append({"op": "c20.rst", "text": text, "width": 72, "indent": 4})
         metas.append(("rst", text, 72, None, 4, None))
+    # ---- every small text (exhaustive up to a length), four width/offset/indent configurations
+    for text in small_texts(ctx.n(4, 5)):
+        for (width, offset, indent) in SMALL_CONFIGS:
+            ops.append({"op": "c20.wrap", "text": text, "width": width, "indent": indent, **({} if offset is None else {"offset": offset})})
+            metas.append(("wrap", text, width, offset, indent, None))
     # ---- generated
     for i in range(ctx.n(1500, 60000)):
         text = gen_text(r)
-        width = r.randint(20, 100)
-        indent = r.pick([0, 0, 4, 8, 12])
+        width = r.randint(20, 100) if r.maybe(0.85) else r.randint(3, 19)
+        indent = r.pick([i for i in (0, 0, 4, 8, 12) if i < width])      # offset defaults to indent: offset < width
         offset = None if r.maybe(0.4) else r.randint(0, width - 1)
         ops.append({"op": "c20.wrap", "text": text, "width": width, "indent": indent, **({} if offset is None else {"offset": offset})})
         metas.append(("wrap", text, width, offset, indent, None))
@@ -319,15 +351,23 @@ def replay(ctx, payload):
 
 
 CLAIM = dict(
-    text="Lean 4 proof for ALL texts that fix_whitespace (the composition of the three re.sub calls with the regexes extracted "
+    text="Lean 4 proof, for EVERY comment text, width, offset and indent, that the model of gapic.utils.lines.wrap keeps the words "
+         "(str.split()) of the text exactly and in order (wrap_words_preserved: full strength, no hypothesis on the text) and "
+         "raises nothing when 0 < width and offset < width (wrap_never_raises); the colon rule's regex, extracted from the source "
+         "and run by the regex-engine model, is proved equal to a plain function (wrapColon_regex_is_colonSub); textwrap.fill keeps "
+         "the words at string level (textwrap_fill_words_preserved) and respects the width at chunk level (textwrap_width_bound). "
+         "Lean 4 proof for ALL texts that fix_whitespace (the composition of the three re.sub calls with the regexes extracted "
          "from the source, run by a backtracking-regex model proved sound w.r.t. a relational semantics) changes nothing but "
-         "whitespace and ends the result with exactly one newline; executable Lean models of textwrap.wrap/fill, lines.wrap and "
-         "the rst fast path validated differentially (T2) on thousands of texts; model-independent oracles for word preservation, "
-         "width bound, docstring safety, AST invariance and idempotence on emitted sources and grammar-generated sources.",
-    technique="Lean 4 theorems (matcher soundness + per-pattern inversion) over T1-translated regexes + T2 differential of executable models",
+         "whitespace and ends the result with exactly one newline; the tail of rst() cannot terminate a docstring. Executable Lean "
+         "models of textwrap.wrap/fill, lines.wrap and the rst fast path validated differentially (T2) on thousands of generated "
+         "texts and on EVERY text over a seven-character alphabet up to length 4 (5 in thorough); model-independent oracles for word "
+         "preservation, width bound, docstring safety, AST invariance and idempotence on emitted and grammar-generated sources.",
+    technique="Lean 4 theorems (word-preservation of lines.wrap by a contextual word equivalence, chunk-level invariants of textwrap, "
+              "regex-engine soundness + per-pattern inversion) over T1-translated regexes + T2 differential of the executable models",
     design="7.20",
-    note="Proved for all inputs: fix_only_removes_whitespace, fix_ends_one_newline, textwrap_words_preserved and textwrap_width_bound "
-         "(the _wrap_chunks core, any width/indents/chunks), rst_output_doc_safe (the tail of rst(), both branches). NOT proved, decided "
-         "by T2 + oracle only: idempotence and AST invariance of fix_whitespace, word preservation and width bound of lines.wrap as a "
-         "whole (its slicing around the first line). The pandoc branch of rst() is not exercised (pandoc absent).",
+    note="Proved for all inputs: wrap_words_preserved, wrap_never_raises, wrapColon_regex_is_colonSub, textwrap_fill_words_preserved, "
+         "fix_only_removes_whitespace, fix_ends_one_newline, textwrap_words_preserved and textwrap_width_bound (the _wrap_chunks core, any "
+         "width/indents/chunks), rst_output_doc_safe (the tail of rst(), both branches). NOT proved, decided by T2 + oracle only: "
+         "idempotence and AST invariance of fix_whitespace (2.4 million small inputs tried by hand: idempotent), the width bound of "
+         "lines.wrap as a whole at string level. The pandoc branch of rst() is not exercised (pandoc absent).",
 )
